@@ -346,7 +346,8 @@ pub fn deep_chain_probe(depth: usize, mode: &str) -> Result<Option<(String, Stri
     } else {
         "died-in-probe"
     };
-    let overflow = stderr.contains("overflowed its stack") || stderr.contains("stack overflow");
+    // (the ASan runtime reports the same event as "AddressSanitizer: stack-overflow")
+    let overflow = stderr.contains("overflowed its stack") || stderr.contains("stack overflow") || stderr.contains("stack-overflow");
     Ok(Some((
         format!("{}{}", stage, if overflow { "(stack-overflow)" } else { "" }),
         format!("chain of {} multiplications on an 8 MiB stack, mode {}: exit status {:?}; stdout {:?}; stderr {:?}", depth, mode, out.status, stdout.trim(), stderr.trim().lines().last().unwrap_or("")),
